@@ -233,9 +233,17 @@ def make_filter(ssj, spec, toks):
                spec.get('allow_empty', True), spec.get('allow_missing', False))
 
 
+FILTER_DOCUMENTED = ('tokenizer', 'sim_measure_type', 'threshold',
+                     'allow_empty', 'allow_missing', 'overlap_size', 'comp_op')
+
+
 def filter_config(f):
+    """The documented attributes of a filter object (its configuration).  A
+    private attribute a filter may add to itself is not part of it."""
     d = {'class': type(f).__name__}
     for k, v in sorted(vars(f).items()):
+        if k not in FILTER_DOCUMENTED:
+            continue
         if k == 'tokenizer':
             d[k] = ('tok', getattr(v, 'sim_id', None), id(v))
         else:
